@@ -439,35 +439,84 @@ def run_race_once(case, decisions=None, random_seq=None):
     import urllib3
     import urllib3._collections as uc
 
+    # the cooperative lock stays installed for the whole run: a container created DURING the run (a clear() that swaps
+    # the container, say) must not bring a real lock under the scheduler
     saved = uc.RLock
     uc.RLock = sched.CoopRLock
     try:
         pm = urllib3.PoolManager(num_pools=case["num_pools"])
+        return _run_race(case, pm, decisions, random_seq)
     finally:
         uc.RLock = saved
+
+
+def _run_race(case, pm, decisions, random_seq):
     s = sched.Scheduler(decisions=decisions, random_seq=random_seq, targets=PM_FUNCS)
     results: dict = {}
+
+    history: list = []  # (start point, end point, thread, index in thread, op, pool object or None)
 
     def body(ti, ops):
         def run():
             out = []
-            for op in ops:
+            for oi, op in enumerate(ops):
+                start = s.points
                 if op[0] == "cfu":
                     out.append(("cfu", op[1], pm.connection_from_url(ORIGINS[op[1]] + "/")))
+                    history.append((start, s.points, ti, oi, op, out[-1][2]))
                 elif op[0] == "clear":
                     pm.clear()
                     out.append(("clear",))
+                    history.append((start, s.points, ti, oi, op, None))
             results[ti] = out
         return run
 
     for ti, ops in enumerate(case["threads"]):
         s.spawn("t%d" % ti, body(ti, ops))
     s.run()
-    return s, (pm, results)
+    return s, (pm, results, history)
+
+
+def _race_linearizable(history, num_pools) -> bool:
+    """Is there a sequential order of the connection_from_url / clear calls, respecting real time and each thread's own
+    order, in which an LRU cache of `num_pools` pools (hit -> the cached object, miss -> a pool object never handed out
+    before) explains every returned object?"""
+    n = len(history)
+    before = [[(history[a][1] < history[b][0]) or (history[a][2] == history[b][2] and history[a][3] < history[b][3]) for b in range(n)] for a in range(n)]
+
+    def search(done, cache, seen):
+        if len(done) == n:
+            return True
+        for i in range(n):
+            if i in done or any(before[j][i] and j not in done for j in range(n)):
+                continue
+            op, res = history[i][4], history[i][5]
+            if op[0] == "clear":
+                if search(done | {i}, (), seen):
+                    return True
+                continue
+            d = dict(cache)
+            if op[1] in d:
+                if d[op[1]] != id(res):
+                    continue
+                nc = tuple((k, v) for k, v in cache if k != op[1]) + ((op[1], id(res)),)
+                if search(done | {i}, nc, seen):
+                    return True
+            else:
+                if id(res) in seen:
+                    continue
+                nc = cache + ((op[1], id(res)),)
+                if len(nc) > num_pools:
+                    nc = nc[1:]
+                if search(done | {i}, nc, seen | {id(res)}):
+                    return True
+        return False
+
+    return search(frozenset(), (), frozenset())
 
 
 def check_race(case, s, obs) -> list[Failure]:
-    pm, results = obs
+    pm, results, history = obs
     fails: list[Failure] = []
     sig = {"part": "race", "num_pools": case["num_pools"]}
     brief = f"{ {k: v for k, v in case.items() if k != 'kind'} } schedule={s.taken}"
@@ -490,6 +539,8 @@ def check_race(case, s, obs) -> list[Failure]:
         for o, pools in by_origin.items():
             if any(p is not pools[0] for p in pools):
                 fails.append(Failure("same-pool", {**sig, "racing": True}, f"racing requests for {ORIGINS[o]} obtained {len({id(p) for p in pools})} different pool objects: {brief}"))
+    if not fails and not _race_linearizable(history, case["num_pools"]):
+        fails.append(Failure("linearizable", {**sig, "clear": has_clear}, f"no sequential order of the calls explains which pool objects were returned {[(h[2], h[4], id(h[5]) % 100000 if h[5] is not None else None) for h in history]}: {brief}"))
     if len(pm.pools.keys()) > case["num_pools"]:
         fails.append(Failure("bound", sig, f"{len(pm.pools.keys())} pools cached: {brief}"))
     for k in pm.pools.keys():
@@ -539,6 +590,10 @@ RACE_CONFIGS = [
     {"num_pools": 1, "threads": [[["cfu", 0]], [["cfu", 1]]]},
     {"num_pools": 2, "threads": [[["cfu", 0]], [["clear"]], [["cfu", 0]]]},
     {"num_pools": 1, "threads": [[["cfu", 0], ["cfu", 0]], [["cfu", 1]], [["clear"]]]},
+    {"num_pools": 2, "threads": [[["cfu", 0]], [["clear"], ["cfu", 0], ["cfu", 0]]]},
+    {"num_pools": 2, "threads": [[["cfu", 0], ["cfu", 0]], [["clear"], ["cfu", 0]]]},
+    {"num_pools": 2, "threads": [[["cfu", 0], ["cfu", 1]], [["clear"], ["cfu", 1], ["cfu", 0]]]},
+    {"num_pools": 1, "threads": [[["cfu", 0], ["cfu", 0]], [["cfu", 1], ["cfu", 1]]]},
 ]
 
 
